@@ -250,6 +250,10 @@ def run_fault_histories(root, tag, compiler, seed, n_hist, n_req, sc_env=None):
                 else: note = mutate(w, rng); w.seen.clear() if 'SCCACHE_CACHE_SIZE' in env else None
                 # once the cache directory itself is gone, stores keep failing for this server: only correctness is expected
                 w.request(note, evicted=('SCCACHE_CACHE_SIZE' in env) or getattr(w, 'nohit', False))
+                if note.startswith('fault') and rng.random() < 0.6:
+                    # the request after a fault has compiled and stored again (unless the store itself failed): the identical request must hit now —
+                    # a damaged entry is replaced, not kept
+                    w.request('repeat after the fault', evicted=('SCCACHE_CACHE_SIZE' in env) or getattr(w, 'nohit', False)); reqs += 1
             reqs += n_req + 2
             fails += [f for f in w.fails if f['kind'] not in KNOWN_DEVIATIONS][:2]
             if len(samples) < 2: samples.append(' ; '.join(w.trace[-6:]))
@@ -294,7 +298,11 @@ def run_readonly(root, tag, compiler, seed, n_hist, n_req, oversize=False, damag
                     damaged += 1; w.trace.append(f'--- damaged {os.path.relpath(f, w.sc.cache)} ({("cut in half", "emptied", "first 64 bytes overwritten")[how]})')
             before = listing(w.sc.cache); entries += len(before)
             ro_env = {'SCCACHE_LOCAL_RW_MODE': 'READ_ONLY'}
-            if oversize: ro_env['SCCACHE_CACHE_SIZE'] = '1K'
+            if oversize == 'tight':
+                # a limit that everything in the directory fits into, with little to spare (1.25 x): nothing may go, whatever share of the limit a part of the cache is given
+                total = sum(os.path.getsize(os.path.join(dp, f)) for dp, _, fs in os.walk(w.sc.cache) for f in fs)
+                ro_env['SCCACHE_CACHE_SIZE'] = str(int(total * 1.25) + 1)
+            elif oversize: ro_env['SCCACHE_CACHE_SIZE'] = '1K'
             if h % 3 == 2: ro_env['SCCACHE_RECACHE'] = '1'
             if conf in ('file', 'file_env_dir'):
                 # the config-file spelling of read-only mode
@@ -316,13 +324,13 @@ def run_readonly(root, tag, compiler, seed, n_hist, n_req, oversize=False, damag
                 fp = w.fingerprint(); known = fp in w.seen
                 # (variant file_env_dir: by F-C15-b the file's section — preprocessor-cache options included — is dropped in the second phase; with the
                 #  mode flipped the preprocessed text has other line markers and the populated entries are not found: no hit is expected there)
-                w.request(note, expect_cacheable=(known and not recache and not oversize and not damaged and conf != 'file_env_dir'))
+                w.request(note, expect_cacheable=(known and not recache and not damaged and conf != 'file_env_dir'))
                 if not known: w.seen.pop(fp, None)
             w.sc.stop()
             after = listing(w.sc.cache)
             added = sorted(set(after) - set(before)); removed = sorted(set(before) - set(after)); changed = sorted(k for k in before if k in after and before[k] != after[k])
             if added or removed or changed:
-                fails.append({'kind': 'readonly_cache_modified' + ('_oversize' if oversize else '') + ('_file_mode_with_env_dir' if conf == 'file_env_dir' else ''), 'detail': f'added={added[:3]} removed={removed[:3]} changed={changed[:3]} (entries before {len(before)}, after {len(after)})', 'ops': list(w.trace)})
+                fails.append({'kind': 'readonly_cache_modified' + ('_tight' if oversize == 'tight' else '_oversize' if oversize else '') + ('_file_mode_with_env_dir' if conf == 'file_env_dir' else ''), 'detail': f'added={added[:3]} removed={removed[:3]} changed={changed[:3]} (entries before {len(before)}, after {len(after)})', 'ops': list(w.trace)})
             reqs += n_req; hits += w.hits - h0
             fails += [f for f in w.fails if f['kind'] not in KNOWN_DEVIATIONS][:2]
             if len(samples) < 2: samples.append(' ; '.join(w.trace[-5:]))
